@@ -5,6 +5,7 @@
       add|del <pos> <host> <kind> <pathval> <hasm> <m> <hasc> <c> <redirect|-1> <auth|-1>
       probe <host> <path> <method>
       permcheck                         (implementation-only oracle; no observation)
+      tins <key> <n> | trem <key> | tget <key> <aw> | tmut <key> <aw>     (the trie API itself)
     obs: ok | err <Name> | panic | skipped | route <hasc> <c> <redirect> <auth> | notfound *)
 From Coq Require Import List Arith ZArith NArith String Bool.
 From SV Require Import Common.Tok Common.Trie C04.Model.
@@ -19,7 +20,7 @@ Definition tab_ok (tb : table) (src : bytes) : bool :=
 Definition tab_match (tb : table) (src s : bytes) : bool :=
   match aget src tb with Some (_, l) => existsb (beq s) l | None => false end.
 
-Record rstate := mkr { r_tab : table; r_rt : router; r_dead : bool }.
+Record rstate := mkr { r_tab : table; r_rt : router; r_dead : bool; r_trie : trie Z }.
 
 Definition bytes_of (ts : list tok) : list bytes :=
   flat_map (fun t => match t with TB b => [b] | _ => [] end) ts.
@@ -63,7 +64,7 @@ Definition step (st : rstate) (op : list tok) : rstate * list tok :=
   | TS name :: args =>
     if name =? "rx" then
       match args with
-      | TB src :: TN v :: ms => (mkr (r_tab st ++ [(src, ((v =? 1)%Z, bytes_of ms))]) (r_rt st) (r_dead st), [])
+      | TB src :: TN v :: ms => (mkr (r_tab st ++ [(src, ((v =? 1)%Z, bytes_of ms))]) (r_rt st) (r_dead st) (r_trie st), [])
       | _ => bad
       end
     else if name =? "permcheck" then (st, [])
@@ -72,15 +73,50 @@ Definition step (st : rstate) (op : list tok) : rstate * list tok :=
       match parse_front args with
       | Some fr =>
         let '(rt, r) := add_front (tab_ok (r_tab st)) (tab_match (r_tab st)) (r_rt st) fr in
-        (mkr (r_tab st) rt (is_panic r), opres_toks r)
+        (mkr (r_tab st) rt (is_panic r) (r_trie st), opres_toks r)
       | None => bad
       end
     else if name =? "del" then
       match parse_front args with
       | Some fr =>
         let '(rt, r) := remove_front (tab_ok (r_tab st)) (tab_match (r_tab st)) (r_rt st) fr in
-        (mkr (r_tab st) rt (is_panic r), opres_toks r)
+        (mkr (r_tab st) rt (is_panic r) (r_trie st), opres_toks r)
       | None => bad
+      end
+    else if name =? "tins" then
+      match args with
+      | [TB k; TN v] =>
+        let '(t, r) := insert (tab_ok (r_tab st)) (r_trie st) k v in
+        (mkr (r_tab st) (r_rt st) (r_dead st) t,
+         [TS (match r with IOk => "ok" | IExisting => "existing" | IFailed => "failed" end)])
+      | _ => bad
+      end
+    else if name =? "trem" then
+      match args with
+      | [TB k] =>
+        let '(t, b) := remove (r_trie st) k in
+        (mkr (r_tab st) (r_rt st) (r_dead st) t, [TS (if b then "ok" else "notfound")])
+      | _ => bad
+      end
+    else if name =? "tget" then
+      match args with
+      | [TB k; TN aw] =>
+        (st, match lookup (tab_match (r_tab st)) (r_trie st) k (aw =? 1)%Z with
+             | Some (k', v) => [TS "some"; TB k'; TN v]
+             | None => [TS "none"]
+             end)
+      | _ => bad
+      end
+    else if name =? "tmut" then
+      match args with
+      | [TB k; TN aw] =>
+        (mkr (r_tab st) (r_rt st) (r_dead st)
+             (modify_mut (tab_match (r_tab st)) (r_trie st) k (aw =? 1)%Z (fun v => (v + 1)%Z)),
+         match lookup_mut (tab_match (r_tab st)) (r_trie st) k (aw =? 1)%Z with
+         | Some (k', v) => [TS "some"; TB k'; TN v]
+         | None => [TS "none"]
+         end)
+      | _ => bad
       end
     else if name =? "probe" then
       match args with
@@ -98,4 +134,4 @@ Fixpoint run_from (st : rstate) (ops : list (list tok)) : list (list tok) :=
   end.
 
 Definition run_case (ops : list (list tok)) : list (list tok) :=
-  run_from (mkr [] empty_router false) ops.
+  run_from (mkr [] empty_router false root) ops.
